@@ -195,8 +195,10 @@ theorem setModeS_inv {cfg : Cfg} {sh : Bool} {po : Option Bytes} {x : Sess} (m :
   split
   · exact h
   · split
-    · constructor <;> simp_all [inflight, bufData, effMode, pd, waiters, wake]
-    · cases m <;> cases hb : x.buf <;> (constructor <;> simp_all [inflight, bufData, effMode, pd, waiters, wake, flushPath])
+    · exact h
+    · split
+      · constructor <;> simp_all [inflight, bufData, effMode, pd, waiters, wake]
+      · cases m <;> cases hb : x.buf <;> (constructor <;> simp_all [inflight, bufData, effMode, pd, waiters, wake, flushPath])
 
 theorem flushStepS_inv {sh : Bool} {po : Option Bytes} {x : Sess}
     (h : InvS sh po x) : InvS sh po (flushStepS sh x).1 := by
@@ -232,7 +234,8 @@ theorem upd_other (f : Nat → Sess) {i j : Nat} (x : Sess) (h : j ≠ i) : upd 
 
 theorem ok_ioData {s : State} {sid : Nat} {chunk : Bytes} (h : ok s (.ioData sid chunk) = true) :
     (s.sess sid).dead = false := by
-  simpa [ok] using h
+  have h' : (s.sess sid).dead = false ∧ s.ioPend = none := by simpa [ok] using h
+  exact h'.1
 
 theorem step_inv {cfg : Cfg} (hg : cfg.Good) {s : State} (h : Inv s) (st : Step) (hok : ok s st = true) :
     Inv (step cfg s st).1 := by
